@@ -586,14 +586,34 @@ func judgeFailure(res *core.Result, w *env.World, o observation, cat string, det
 				drops = "new chart drops a resource of the restored revision"
 			}
 		}
-		class += " | " + drops
+		// cause shapes of the two restoration clauses: where the fault landed relative to the update's
+		// prune step, and what the history / the new chart look like
+		phase := "fault after the update (wait / post-upgrade hook)"
+		switch {
+		case cat == "no injected fault":
+			phase = cat
+		case cat == "resource-delete":
+			phase = "fault in the update's prune step"
+		case strings.HasPrefix(cat, "resource-") || strings.HasSuffix(cat, "(pre-upgrade)"):
+			phase = "fault before the update's prune step (pre-upgrade hook / create / patch / get)"
+		}
+		histShape := "every later superseded revision had been deployed"
+		for _, b := range o.before {
+			if b.Revision > good.Revision && b.Status == "superseded" && !o.ever[b.Revision] {
+				histShape = "history holds a later superseded revision that never was deployed"
+			}
+		}
+		if len(created) >= 2 && created[1].Manifest != good.Manifest {
+			res.Add("atomic-upgrade-wrong-manifest", opTag(op)+" | "+histShape, "the atomic rollback created revision %d whose manifest differs from that of revision %d, the most recent revision that had been deployed (ever deployed: %v) | %s", created[1].Revision, good.Revision, keysOf(o.ever), detail())
+			return
+		}
 		top := ref.TopRec(o.after)
 		if top == nil || top.Status != "deployed" || len(created) == 0 || top.Revision <= created[0].Revision {
-			res.Add("atomic-upgrade-not-restored", class, "failed atomic upgrade did not end with a new highest deployed revision: ledger after [%s] (last good revision %d) | %s", env.LedgerString(o.after), good.Revision, detail())
+			res.Add("atomic-upgrade-not-restored", opTag(op)+" | "+phase+" | "+drops, "failed atomic upgrade did not end with a new highest deployed revision: ledger after [%s] (last good revision %d) | %s", env.LedgerString(o.after), good.Revision, detail())
 			return
 		}
 		if top.Manifest != good.Manifest {
-			res.Add("atomic-upgrade-wrong-manifest", class, "atomic rollback created revision %d whose manifest differs from that of revision %d, the most recent revision that had been deployed (ever-deployed %v) | %s", top.Revision, good.Revision, keysOf(o.ever), detail())
+			res.Add("atomic-upgrade-wrong-manifest", opTag(op)+" | "+histShape, "the new deployed revision %d has a manifest that differs from that of revision %d, the most recent revision that had been deployed (ever deployed: %v) | %s", top.Revision, good.Revision, keysOf(o.ever), detail())
 			return
 		}
 		createdFailed(created[0])
